@@ -1,15 +1,17 @@
 use kolibrie::execute_query::execute_sparql_query;
 use kolibrie::sparql_database::SparqlDatabase;
 
+// A query whose *estimated* size is astronomically large but whose answer is empty and cheap:
+// the estimator multiplies cardinalities of unconnected patterns (saturating), then adds costs unchecked.
 #[test]
-fn cross_product_cost_estimate() {
+fn empty_answer_with_huge_estimate() {
     let mut db = SparqlDatabase::new();
     let mut nt = String::new();
-    for i in 0..3000 { nt.push_str(&format!("<http://s{}> <http://p{}> <http://o{}> .\n", i, i % 7, i)); }
+    for i in 0..2000 { nt.push_str(&format!("<http://s{}> <http://p{}> <http://o{}> .\n", i, i % 7, i)); }
     db.parse_ntriples_and_add(&nt);
-    for k in 2..=7 {
+    for k in 2..=8 {
         let pats: String = (0..k).map(|i| format!("?s{} ?p{} ?o{} . ", i, i, i)).collect();
-        let q = format!("SELECT * WHERE {{ {} }} LIMIT 1", pats);
+        let q = format!("SELECT * WHERE {{ <http://nobody> <http://nothing> ?x . {} }}", pats);
         let r = std::panic::catch_unwind(std::panic::AssertUnwindSafe(|| execute_sparql_query(&q, &mut db).map(|r| r.len())));
         println!("k={} -> {:?}", k, r.map_err(|_| "PANIC"));
     }
